@@ -42,6 +42,7 @@ type facc struct {
 type ftask struct {
 	name string
 	accs []facc
+	done int // how often the goroutine calls Done on its WaitGroup: 1, or 0 / 2 when some path calls it not exactly once
 }
 
 type fwalker struct {
@@ -389,6 +390,145 @@ type fgroup struct {
 	fn      string
 	tasks   []ftask
 	unknown []string
+	added   int // the sum of the literal Add(n) calls that precede the Wait (calls inside a loop count once per instantiated iteration)
+}
+
+// doneCount: on how many paths through a goroutine's body Done is called how often.  fall / ret: the counts possible when
+// control falls off the end of the list / leaves through a return.  A Done or return inside a loop, and statements that run
+// after a Done (their effects are not ordered before the join), are reported as problems.
+func doneCount(list []ast.Stmt, wgs map[string]bool, fall map[int]bool, problems *[]string, deferred *int) (map[int]bool, map[int]bool) {
+	ret := map[int]bool{}
+	union := func(a, b map[int]bool) map[int]bool {
+		o := map[int]bool{}
+		for k := range a {
+			o[k] = true
+		}
+		for k := range b {
+			o[k] = true
+		}
+		return o
+	}
+	isDone := func(e ast.Expr) bool {
+		if !isWG(e, wgs) {
+			return false
+		}
+		return e.(*ast.CallExpr).Fun.(*ast.SelectorExpr).Sel.Name == "Done"
+	}
+	for _, st := range list {
+		after := false
+		for c := range fall {
+			if c > 0 {
+				after = true
+			}
+		}
+		switch v := st.(type) {
+		case *ast.ExprStmt:
+			if isDone(v.X) {
+				nf := map[int]bool{}
+				for c := range fall {
+					if c < 2 {
+						nf[c+1] = true
+					} else {
+						nf[2] = true
+					}
+				}
+				fall = nf
+				continue
+			}
+			if after {
+				*problems = append(*problems, "a statement runs after Done")
+			}
+		case *ast.DeferStmt:
+			if isDone(v.Call) {
+				*deferred++
+				continue
+			}
+		case *ast.ReturnStmt:
+			ret = union(ret, fall)
+			fall = map[int]bool{}
+		case *ast.BlockStmt:
+			f, r := doneCount(v.List, wgs, fall, problems, deferred)
+			fall, ret = f, union(ret, r)
+		case *ast.IfStmt:
+			f1, r1 := doneCount(v.Body.List, wgs, fall, problems, deferred)
+			f2, r2 := fall, map[int]bool{}
+			if v.Else != nil {
+				f2, r2 = doneCount([]ast.Stmt{v.Else}, wgs, fall, problems, deferred)
+			}
+			fall, ret = union(f1, f2), union(ret, union(r1, r2))
+		case *ast.ForStmt, *ast.RangeStmt:
+			var body *ast.BlockStmt
+			if fs, ok := v.(*ast.ForStmt); ok {
+				body = fs.Body
+			} else {
+				body = v.(*ast.RangeStmt).Body
+			}
+			var dd int
+			f, r := doneCount(body.List, wgs, map[int]bool{0: true}, problems, &dd)
+			if dd > 0 || len(r) > 0 || len(f) != 1 || !f[0] {
+				*problems = append(*problems, "Done or return inside a loop of a goroutine")
+			}
+			if after {
+				*problems = append(*problems, "a statement runs after Done")
+			}
+		case *ast.SwitchStmt, *ast.TypeSwitchStmt, *ast.SelectStmt:
+			var body *ast.BlockStmt
+			switch sw := v.(type) {
+			case *ast.SwitchStmt:
+				body = sw.Body
+			case *ast.TypeSwitchStmt:
+				body = sw.Body
+			case *ast.SelectStmt:
+				body = sw.Body
+			}
+			nf, hasDefault := map[int]bool{}, false
+			for _, cl := range body.List {
+				var cb []ast.Stmt
+				switch c := cl.(type) {
+				case *ast.CaseClause:
+					cb = c.Body
+					if c.List == nil {
+						hasDefault = true
+					}
+				case *ast.CommClause:
+					cb = c.Body
+					if c.Comm == nil {
+						hasDefault = true
+					}
+				}
+				f, r := doneCount(cb, wgs, fall, problems, deferred)
+				nf, ret = union(nf, f), union(ret, r)
+			}
+			if !hasDefault {
+				nf = union(nf, fall)
+			}
+			fall = nf
+		default:
+			if after {
+				*problems = append(*problems, "a statement runs after Done")
+			}
+		}
+	}
+	return fall, ret
+}
+
+// doneOf: 1 when every path through the goroutine calls Done exactly once; otherwise 0 (some path never does: the join hangs) or
+// 2 (some path does it twice: the WaitGroup counter goes negative, a panic)
+func doneOf(lit *ast.FuncLit, wgs map[string]bool, problems *[]string) int {
+	deferred := 0
+	fall, ret := doneCount(lit.Body.List, wgs, map[int]bool{0: true}, problems, &deferred)
+	res := 1
+	for _, m := range []map[int]bool{fall, ret} {
+		for c := range m {
+			switch {
+			case c+deferred == 0:
+				return 0
+			case c+deferred > 1:
+				res = 2
+			}
+		}
+	}
+	return res
 }
 
 // scan one function body for fan-outs
@@ -406,6 +546,8 @@ func scanFunc(name string, body *ast.BlockStmt, pkgs map[string]bool) []fgroup {
 		return true
 	})
 	var cur *fgroup
+	pendingAdd := 0          // Add(n) calls seen since the last Wait
+	addUnknown := []string{} // Add calls whose argument is not an integer literal
 	parent := &fwalker{private: map[string]bool{}, iter: map[string]bool{}, pkgs: pkgs}
 	var walk func(list []ast.Stmt, iter map[string]bool, inLoop bool)
 	walk = func(list []ast.Stmt, iter map[string]bool, inLoop bool) {
@@ -425,6 +567,9 @@ func scanFunc(name string, body *ast.BlockStmt, pkgs map[string]bool) []fgroup {
 				if inLoop {
 					n = 2
 				}
+				joinProblems := []string{}
+				done := doneOf(lit, wgs, &joinProblems)
+				cur.unknown = append(cur.unknown, joinProblems...)
 				for inst := 0; inst < n; inst++ {
 					w := &fwalker{private: map[string]bool{}, iter: iter, inst: inst, pkgs: pkgs}
 					for k := range iter {
@@ -434,16 +579,38 @@ func scanFunc(name string, body *ast.BlockStmt, pkgs map[string]bool) []fgroup {
 						w.private[k] = true
 					}
 					w.stmts(lit.Body.List)
-					cur.tasks = append(cur.tasks, ftask{name: fmt.Sprintf("goroutine at line %d (iteration %d)", 0, inst), accs: w.accs})
+					cur.tasks = append(cur.tasks, ftask{name: fmt.Sprintf("goroutine at line %d (iteration %d)", 0, inst), accs: w.accs, done: done})
 					cur.unknown = append(cur.unknown, w.unknown...)
 				}
 			case *ast.ExprStmt:
 				if isWG(v.X, wgs) {
-					if sel := v.X.(*ast.CallExpr).Fun.(*ast.SelectorExpr); sel.Sel.Name == "Wait" && cur != nil {
-						cur.tasks = append(cur.tasks, ftask{name: "parent", accs: parent.accs})
-						cur.unknown = append(cur.unknown, parent.unknown...)
-						groups = append(groups, *cur)
-						cur = nil
+					call := v.X.(*ast.CallExpr)
+					sel := call.Fun.(*ast.SelectorExpr)
+					if sel.Sel.Name == "Add" {
+						k := -1
+						if len(call.Args) == 1 {
+							if bl, ok := call.Args[0].(*ast.BasicLit); ok && bl.Kind == token.INT {
+								fmt.Sscanf(bl.Value, "%d", &k)
+							}
+						}
+						if k < 0 {
+							addUnknown = append(addUnknown, "Add with an argument that is not an integer literal")
+						} else if inLoop {
+							pendingAdd += 2 * k // two iterations are instantiated
+						} else {
+							pendingAdd += k
+						}
+					}
+					if sel.Sel.Name == "Wait" {
+						if cur != nil {
+							cur.tasks = append(cur.tasks, ftask{name: "parent", accs: parent.accs})
+							cur.unknown = append(cur.unknown, parent.unknown...)
+							cur.unknown = append(cur.unknown, addUnknown...)
+							cur.added = pendingAdd
+							groups = append(groups, *cur)
+							cur = nil
+						}
+						pendingAdd, addUnknown = 0, []string{}
 					}
 					continue
 				}
@@ -562,8 +729,9 @@ func fanoutMain(out string, files []string) {
 	}
 	var b strings.Builder
 	b.WriteString("(* GENERATED by /verif/tools/xlate -fanout from pub/*.go, splicer/*.go, client/*.go on every run of the C08 check. Do not edit. *)\n")
-	b.WriteString("From Coq Require Import List String.\nImport ListNotations.\nFrom Servitor Require Import ForkJoin.\nFrom Servitor.Facts Require Import ForkJoinFacts.\nLocal Open Scope string_scope.\n\n")
+	b.WriteString("From Coq Require Import List String ZArith.\nImport ListNotations.\nFrom Servitor Require Import ForkJoin.\nFrom Servitor.Facts Require Import ForkJoinFacts.\nLocal Open Scope string_scope.\n\n")
 	names := []string{}
+	joins := []string{}
 	unknownTotal := 0
 	for _, p := range ps {
 		pkgs := map[string]bool{}
@@ -607,14 +775,28 @@ func fanoutMain(out string, files []string) {
 				}
 				b.WriteString("].\n\n")
 				names = append(names, id)
+				ds := []string{}
+				for _, t := range g.tasks {
+					if t.name != "parent" {
+						ds = append(ds, fmt.Sprintf("%d", t.done))
+					}
+				}
+				joins = append(joins, fmt.Sprintf("(%d, [%s])", g.added, strings.Join(ds, "; ")))
 			}
 		}
 	}
 	fmt.Fprintf(&b, "Definition fanouts : list (list accs) := [%s].\n", strings.Join(names, "; "))
 	fmt.Fprintf(&b, "Definition fanout_not_understood : nat := %d.\n\n", unknownTotal)
 	b.WriteString("(* per-fan-out verdicts, printed for the replay when the check fails *)\nEval vm_compute in (map fj_check fanouts).\n\n")
+	b.WriteString("(* the join: per fan-out, what was Added to the WaitGroup and how often each goroutine calls Done (on every path) *)\n")
+	fmt.Fprintf(&b, "Definition fanout_joins : list (nat * list nat) := [%s].\n", strings.Join(joins, "; "))
+	b.WriteString("Eval vm_compute in (map (fun j => join_ok (fst j) (snd j)) fanout_joins).\n\n")
 	b.WriteString("Theorem fanouts_understood : fanout_not_understood = 0.\nProof. reflexivity. Qed.\n\n")
 	b.WriteString("Theorem fanouts_disjoint : forallb fj_check fanouts = true.\nProof. vm_compute. reflexivity. Qed.\nPrint Assumptions fanouts_disjoint.\n\n")
+	b.WriteString("Theorem fanouts_join : forallb (fun j => join_ok (fst j) (snd j)) fanout_joins = true.\nProof. vm_compute. reflexivity. Qed.\nPrint Assumptions fanouts_join.\n\n")
+	b.WriteString("(* ... so on THIS source every Wait returns once its goroutines have finished, and the counter never goes negative *)\n")
+	b.WriteString("Theorem fanouts_join_completes : forall a ds, In (a, ds) fanout_joins -> wg_counter a ds = 0%Z /\\ wg_never_negative a ds.\n")
+	b.WriteString("Proof.\n  intros a ds H. apply join_ok_completes_fact. pose proof fanouts_join as J. rewrite forallb_forall in J. apply (J (a, ds) H).\nQed.\nPrint Assumptions fanouts_join_completes.\n\n")
 	b.WriteString("(* the general theorems instantiated on THIS source: every program whose goroutines make these accesses has no data race\n   and reaches the same memory under every interleaving *)\n")
 	b.WriteString("Theorem fanouts_race_free : forall progs, In (map (map acc_of) progs) fanouts -> ~ has_race progs.\n")
 	b.WriteString("Proof.\n  intros progs H. apply fj_no_race_fact. pose proof fanouts_disjoint as D. rewrite forallb_forall in D. apply D, H.\nQed.\nPrint Assumptions fanouts_race_free.\n")
